@@ -333,6 +333,15 @@ pub fn gen(rng: &mut Rng, _index: u64) -> String {
             let (g, p) = wild_cp(rng);
             return format!("C12.cp {} {}", proto::geom(&g), proto::coord(p));
         }
+        if rng.chance(1, 40) {
+            // a MultiPoint / collection of points at magnitudes where squared distances overflow or underflow
+            let s = 2f64.powi(if rng.chance(1, 2) { rng.range(515, 525) as i32 } else { -(rng.range(545, 565) as i32) });
+            let pt = |rng: &mut Rng| Coord { x: rng.range(-9, 9) as f64 * s, y: rng.range(-9, 9) as f64 * s };
+            let pts: Vec<Point<f64>> = (0..rng.range(2, 6)).map(|_| Point(pt(rng))).collect();
+            let g = if rng.chance(2, 3) { Geometry::MultiPoint(MultiPoint(pts)) } else { Geometry::GeometryCollection(GeometryCollection(pts.into_iter().map(Geometry::Point).collect())) };
+            let p = pt(rng);
+            return format!("C12.cp {} {}", proto::geom(&g), proto::coord(p));
+        }
         if rng.chance(1, 10) {
             let (g, p) = bbox_trap(rng);
             return format!("C12.cp {} {}", proto::geom(&g), proto::coord(p));
